@@ -2,7 +2,7 @@ CONSTANTS
   MaxLen = 4
   Alphabet <- AlphaA
   MsSet = {1, 2, 3}
-  BsSet = {1, 2, 3, 5}
+  BsSet = {0, 1, 2, 3, 5}
 INIT ExportInit
 NEXT ExportNext
 CHECK_DEADLOCK FALSE
